@@ -278,6 +278,80 @@ def views_job(arg):
     return rep
 
 
+def _partial_proc(arg):
+    """One process that configures the local store with only some of the directories given (the others default to
+    <tempdir>/dds/...; tempfile.tempdir is pointed into the scratch directory)."""
+    base, script, cache = arg
+    import tempfile
+
+    import dds
+    from dds.structures import DDSException
+
+    dds.accept_module("checks")
+    tempfile.tempdir = os.path.join(base, "tmpdir")
+    os.makedirs(tempfile.tempdir, exist_ok=True)
+    obs = []
+    for act in script:
+        vlog.clear()
+        try:
+            if act[0] == "set_store":
+                kw = dict(act[1])
+                if cache is not None:
+                    kw["cache_objects"] = cache
+                dds.set_store("local", **kw)
+                r = None
+            elif act[0] == "keep1":
+                r = dds.keep("/c16/x/one", node1)
+            elif act[0] == "keep1_v2":
+                r = dds.keep("/c16/x/one", node1_v2)
+            elif act[0] == "load":
+                r = dds.load(act[1])
+            obs.append((act[0], "ok", r, vlog.snapshot()))
+        except DDSException as e:
+            obs.append((act[0], "dds", str(e)[:150], vlog.snapshot()))
+        except BaseException as e:
+            obs.append((act[0], "exc", "%s: %s" % (type(e).__name__, str(e)[:150]), vlog.snapshot()))
+    return obs
+
+
+def partial_job(arg):
+    """set_store("local") with only data_dir, only internal_dir, or neither: the directories that are given are the ones
+    that are used; two data directories given this way are two independent views."""
+    cache, which = arg
+    rep = core.Report("C16")
+    rep.evaluations = 1
+    case = {"partial": True, "cache_objects": cache, "which": which}
+    with core.Scratch("vp_c16p_") as base0:
+        base = os.path.realpath(base0)
+        A, B, I = os.path.join(base, "viewA"), os.path.join(base, "viewB"), os.path.join(base, "int")
+        if which == "data_only":
+            cfg_a, cfg_b = {"data_dir": A}, {"data_dir": B}
+        elif which == "internal_only":
+            cfg_a, cfg_b = {"internal_dir": I}, {"internal_dir": I}
+        else:
+            cfg_a, cfg_b = {}, {}
+        script = [("set_store", cfg_a), ("keep1",), ("load", "/c16/x/one"), ("set_store", cfg_b), ("keep1_v2",), ("load", "/c16/x/one"), ("set_store", cfg_a), ("load", "/c16/x/one")]
+        same_view = which != "data_only"
+        expected = [("ok", None), ("ok", V1), ("ok", V1), ("ok", None), ("ok", V1B), ("ok", V1B), ("ok", None), ("ok", V1B if same_view else V1)]
+        obs = core.fork_call(_partial_proc, (base, script, cache), timeout=120)
+        fresh = core.fork_call(_partial_proc, (base, [("set_store", cfg_a), ("load", "/c16/x/one")], None), timeout=120)
+        here = dict((d, os.path.lexists(os.path.join(d, "c16", "x", "one"))) for d in (A, B))
+    if isinstance(obs, core.JobFailed) or isinstance(fresh, core.JobFailed):
+        rep.inconclusive.append("partial-configuration worker failed")
+        return rep
+    for i, ((act, st, r, lg), (est, ev)) in enumerate(zip(obs, expected)):
+        rep.count("observations")
+        if st != est or (ev is not None and r != ev):
+            rep.violate("set_store('local') with %s (cache=%r): step %d %s gave %s %r, expected %s %r" % (which.replace("_", " "), cache, i, act, st, repr(r)[:80], est, ev), dict(case, step=i), mechanism="partial-directories")
+            return rep
+    if fresh[-1][1] != "ok" or fresh[-1][2] != (V1B if same_view else V1):
+        rep.violate("set_store('local') with %s: a fresh process configured the same way loads %r" % (which.replace("_", " "), fresh[-1][2]), case, mechanism="partial-directories")
+    if which == "data_only" and not (here[A] and here[B]):
+        rep.violate("set_store('local', data_dir=X): nothing was created under the given data directories %r" % (here,), case, mechanism="partial-directories")
+    rep.nontriv(("c16partial", repr(cache), which))
+    return rep
+
+
 def repoint_job(arg):
     """The same directory *names* are configured twice in one process while the directories behind them changed (a
     `current` link re-pointed to another, already initialised environment): the second configuration works on the
@@ -370,7 +444,7 @@ def run(tier, seed):
     rep.rule = (
         "internal_dir x data_dir forms %r (all combinations) x cache_objects %r; per configuration: process A keeps two nodes, loads, re-keeps, chdirs, loads and re-keeps again; "
         "process B (other cwd, absolute real paths) and process C (same cwd and spelling) load and re-keep with an empty execution log; two-view scripts (one internal dir, two data dirs) in one process and "
-        "with one process per view switch; and opening further stores on directories that hold the files of a writer in mid-flight (nothing that exists may disappear or change); the same directory names configured twice in one process around a re-pointed `current` link. distinct_nontrivial = distinct configurations whose processes were all observed." % (FORMS, CACHE)
+        "with one process per view switch; and opening further stores on directories that hold the files of a writer in mid-flight (nothing that exists may disappear or change); the same directory names configured twice in one process around a re-pointed `current` link; set_store with only some of the directories given. distinct_nontrivial = distinct configurations whose processes were all observed." % (FORMS, CACHE)
     )
     jobs = []
     for i, iform in enumerate(FORMS):
@@ -391,8 +465,12 @@ def run(tier, seed):
         for rel in (False, True):
             jobs.append(("repoint", (c, rel)))
 
+    for c in (None, 3):
+        for which in ("data_only", "internal_only", "neither"):
+            jobs.append(("partial", (c, which)))
+
     def dispatch(j):
-        return {"case": case_job, "views": views_job, "open": open_job, "repoint": repoint_job}[j[0]](j[1])
+        return {"case": case_job, "views": views_job, "open": open_job, "repoint": repoint_job, "partial": partial_job}[j[0]](j[1])
 
     results = core.fork_map(dispatch, jobs, timeout=600)
     for j, r in zip(jobs, results):
@@ -409,7 +487,9 @@ def run(tier, seed):
 def replay(payload):
     rep = core.Report("C16")
     c = payload["case"]
-    if c.get("repoint"):
+    if c.get("partial"):
+        rep.merge(partial_job((c["cache_objects"], c["which"])))
+    elif c.get("repoint"):
         rep.merge(repoint_job((c["cache_objects"], c["relative"])))
     elif c.get("open"):
         rep.merge(open_job((c["internal_form"], c["cache_objects"])))
